@@ -44,7 +44,7 @@ class ReadBase {
   protected:
     static void ReplaceThis(ReadBase *with, ReadCompressed &thunk);
 
-    ReadBase *Current(ReadCompressed &thunk);
+    static ReadBase *Current(ReadCompressed &thunk);
 
     static uint64_t &ReadCount(ReadCompressed &thunk);
 };
